@@ -12,58 +12,58 @@ CHECKS = {
          "All expression trees to the depth bound over the operator alphabet built through Python's own operator dispatch; each compared in converter context and in stock context (t-dt) under two value bindings; a DSL exception counts as rejected.",
          "Float evaluation of the tree is the oracle; values on discontinuities and ill-conditioned mod are skipped; depth > 3 not covered.", "§4 C02"),
  "C03": ("exploration", "bounded-exhaustive enumeration of XMILE equation ASTs x spellings, transpiled and compared with an XMILE reference evaluator; unsupported inputs must raise",
-         "Depth-2 (thorough: depth-3 arithmetic core) equation ASTs over + - * / MOD ^, unary minus, comparisons, IF/AND/OR/NOT and every numeric built-in with compound arguments, each in 2 (thorough 4) spellings, compiled by compile_xmile and evaluated at two times against XMILE 1.0 semantics; name shapes x reference spellings; unsupported inputs must fail loudly.",
+         "Depth-2 (thorough: depth-3 arithmetic core) equation ASTs over + - * / MOD ^, unary minus, comparisons, IF/AND/OR/NOT and every numeric built-in with compound arguments, negative literals as operands (in particular as base of ^), each in 2 (thorough 4) spellings, compiled by compile_xmile and evaluated at two times against XMILE 1.0 semantics; name shapes x reference spellings; unsupported inputs must fail loudly.",
          "XMILE reference evaluator mc/xmile.py is trusted; a loud rejection is accepted for any equation; MOD on positive operands, ROUND/INT/STEP away from ties; arrays, modules, stateful and stochastic built-ins not covered.", "§4 C03"),
  "C04": ("exploration", "bounded-exhaustive enumeration of stock/flow graphs x run specs (decimal, binary, reciprocal dt), transpiled model and DSL twin vs Euler reference on an exact rational grid",
-         "1-stock graphs (6 in/out configurations x 8 flow shapes x uniflow/biflow/mixed) and 2-stock chains over start x 8 decimal/binary dt x 5 reciprocal dt: every stock, flow and auxiliary of the transpiled model at every point of util.timerange equals the explicit-Euler reference, and the DSL twin too.",
+         "1-stock graphs (6 in/out configurations x 8 flow shapes incl. graphical functions written with <xpts> and with <xscale> x uniflow/biflow/mixed) and 2-stock chains over start x 8 decimal/binary dt x 5 reciprocal dt: every stock, flow and auxiliary of the transpiled model at every point of util.timerange equals the explicit-Euler reference, and the DSL twin too.",
          "Non-negative stocks (outflow limiting) and arrays not modelled; reference interpreter trusted.", "§4 C04"),
  "C05": ("exploration", "exhaustive enumeration of a (start, dt, steps) lattice; grid labels compared with == against the Decimal grid on every channel",
-         "Every (start, dt, n) of the lattice (n <= 40 quick, <= 400 thorough): timerange, run_scenarios df/dict/json, plot, stepwise session keys and session_results equal the exact decimal grid label by label; a step-counting stock returns i on every arithmetic route to grid point i.",
+         "Every (start, dt, n) of the lattice (n <= 40 quick, <= 400 thorough): timerange, run_scenarios df/dict/json, plot, stepwise session keys and session_results equal the exact decimal grid label by label, also after a run_step that raised and for two scenarios with different stop times in one session; a step-counting stock returns i on every arithmetic route to grid point i.",
          "dt and start with finite decimal expansions only; the session is begun with the model's own start and dt.", "§4 C05"),
  "C06": ("model_checking", "explicit-state BFS over register/run/session/re-parameterise/reset histories on a real bptk object; every scenario and the base model compared with the reference after every transition",
          "All histories to depth 3 (thorough 4) over run, stepwise session, set constant/points/run spec (configure_settings+reset, session settings, step settings), reset cache, registering a second manager from the same model object and a further scenario: after every transition each scenario's run equals the Euler reference with exactly its settings, and the base model's values and points are unchanged.",
          "Settings changed through configure_settings+reset_scenario_cache or session/step settings; a scenario that received step-level settings is not judged itself afterwards; hybrid managers not covered.", "§4 C06"),
  "C07": ("exploration", "complete enumeration of the product model kind x channel x manager base values x scenario setting against the direct build",
-         "Every combination of {DSL, XMILE} x {dict registration, register_model, one scenario file, manager spread over two files, session settings, REST /run settings} x base values x {constant(s), points, start, stop, dt, combinations}: the overriding scenario and its sibling equal the Euler reference carrying exactly their effective values on their own grid.",
+         "Every combination of {DSL, XMILE} x {dict registration, register_model, one scenario file, manager spread over two files (both file orders), session settings, REST /run settings (also after a run, also with an entry for an unknown scenario/manager before/behind the valid one)} x base values x {constant(s), points, start, stop, dt, combinations}: the overriding scenario and its sibling equal the Euler reference carrying exactly their effective values on their own grid.",
          "Run specs for DSL models only; YAML files and hybrid models not covered; reference interpreter trusted.", "§4 C07"),
  "C08": ("model_checking", "explicit-state BFS over edit/evaluate/reset/run histories (fixpoint reached) + stateless preemption-bounded exploration of the SdSimulation worker-thread schedules under a controlled scheduler (sys.settrace line points, baton)",
-         "(a) every history of equation/initial-value/constant edits, evaluations, cache resets and runs up to depth 5 (thorough 8, where the reachable state set closes) gives the values of a freshly evaluated reference model and identical reruns; (b) every schedule of the per-equation worker threads with <= 1 (thorough 2) preemptions at the source lines of Model.memoize, for 4 (6) request lists, yields a frame in which Y(t) = R(t) = Z(t) for a stochastic R.",
+         "(a) every history of equation/initial-value/constant edits, refused edits followed by valid ones, evaluations, cache resets and runs up to depth 5 (thorough 8, where the reachable state set closes) gives the values of a freshly evaluated reference model and identical reruns; (b) every schedule of the per-equation worker threads with <= 1 (thorough 2) preemptions at the source lines of Model.memoize, for 4 (6) request lists, yields a frame in which Y(t) = R(t) = Z(t) for a stochastic R; (c) every order of 4 direct evaluations of R, Y, Z at two times through element(t) and evaluate_equation gives one value per (element, time).",
          "Preemption only at source-line granularity inside Model.memoize; sd_simulation.Thread replaced by a controlled thread class; 2 grid times.", "§4 C08"),
  "C09": ("exploration", "exhaustive enumeration of run specs x all compositions of a run into run-step/run-steps/stream-steps calls x per-call settings sequences, all channels compared with each other and a piecewise Euler reference",
-         "For start x dt x N <= 3 (thorough 5): every composition of the grid into REST run-step / run-steps(k) / stream-steps calls with every settings sequence, plus run_scenarios df/dict/json, REST /run, the Python session (nested, flat) and session_results in all modes: same times start..stop and the same value per (equation, time); a setting acts from its own step on and not before.",
+         "For start x dt x N <= 3 (thorough 5): every composition of the grid into REST run-step / run-steps(k) / stream-steps calls with every settings sequence (constants; a constant together with lookup points), plus run_scenarios df/dict/json, REST /run, the Python session (nested, flat) and session_results in all modes: same times start..stop and the same value per (equation, time); a setting acts from its own step on and not before.",
          "stream-steps last in a composition; one scenario per session; Flask test client instead of a WSGI server.", "§4 C09"),
  "C10": ("exploration", "exhaustive enumeration of ordered operand-shape pairs x operators x result holders against numpy",
-         "All ordered pairs of operand kinds (number, scalar element, vectors, matrices up to 3x3 / 4x4, named vectors/matrices with equal and different names) x {+,-,*,/,dot} x holder {converter, flow, stock}, and all aggregates: accepted equations equal numpy entry by entry with exactly the expected shape; mismatched shapes/names must raise.",
+         "All ordered pairs of operand kinds (number, scalar element, vectors, matrices up to 3x3 / 4x4, named vectors/matrices with equal and different names) x {+,-,*,/,dot} x holder {converter, flow, stock}, all aggregates, aggregates as scalar operands of element-wise equations, and an accepted equation followed by a refused assignment (which leaves no trace): accepted equations equal numpy entry by entry with exactly the expected shape; mismatched shapes/names must raise.",
          "numpy is the oracle; element-wise operators require equal shapes (no broadcasting between arrays); arr_size judged for vectors only.", "§4 C10"),
  "C11": ("model_checking", "explicit-state BFS over event histories on the real Model+SimultaneousScheduler (from the initial population and again from the state after a first delivery) with a due-step reference, every reached history flushed step by step; canonical keys include a generic fingerprint of the implementation's containers",
          "All create/delete(live+dead)/reconfigure/send/send-twice/send of an event kind without handler/step/step with a send or a deletion from inside act() histories to depth 3 (quick) / 4 (thorough) for dt in 1, .5, .25, .1, from the cold and from a warm root, each flushed until all events are past due: handler invocations equal the due events of live receivers, by id, exactly once, in send order.",
          "Events are sent between steps; due step computed in exact rationals; order judged only among events of one send step and receiver.", "§4 C11"),
  "C12": ("model_checking", "exhaustive enumeration of the run lattice (start, stop, dt, population, collect_data, driver, mid-run scripts); call log compared with the generated sequence",
-         "Complete lattice of runs (start -2..2 incl. zero and negative stop times): the call log of instrumented Model/Agent/DataCollector equals begin_round, (handle_events, act) per live agent in creation order, end_round, one statistics record - for every round and step, for Model.run, Model.run_step sequences and hybrid runs through bptk.run_scenarios, including callbacks that create/delete an agent mid-run.",
+         "Complete lattice of runs (start -2..2 incl. zero and negative stop times): the call log of instrumented Model/Agent/DataCollector equals begin_round, (handle_events, act) per live agent in creation order, end_round, one statistics record - for every round and step, for Model.run, Model.run_step sequences and hybrid runs through bptk.run_scenarios, including callbacks that create/delete an agent mid-run and a run repeated after a step raised.",
          "Agents are created/deleted only from begin_round/end_round; integer start/stop, dt with integer 1/dt.", "§4 C12"),
  "C13": ("exploration", "bounded-exhaustive enumeration of populations x state scripts x selections x return formats against brute-force aggregates of end_round snapshots",
-         "Every multiset population of up to 3 (thorough: 3 complete, 4 restricted) scripted agents, runs in which the oldest agent leaves and a new one joins in step 0/1/2 (from begin_round, act(), end_round), pairs of scenarios of one manager: Model.statistics() and run_scenarios for every selection of agents/states/properties/aggregate types in df, dict and json equal count/sum/min/max/mean over the snapshot, zero where a state was empty.",
+         "Every multiset population of up to 3 (thorough: 3 complete, 4 restricted) scripted agents, runs in which the oldest agent leaves and a new one joins in step 0/1/2 (from begin_round, act(), end_round), pairs of scenarios of one manager, the same model simulated twice: Model.statistics() and run_scenarios for every selection of agents/states/properties/aggregate types in df, dict and json equal count/sum/min/max/mean over the snapshot, zero where a state was empty.",
          "Homogeneous property sets per type; snapshot taken in end_round is trusted.", "§4 C13"),
  "C15": ("exploration", "complete enumeration of the live URL map x methods x credential shapes x instance ids x bodies x server states; status and a deep before/after snapshot",
-         "Every (rule, method) of app.url_map (enumerated at run time) x 15 judged credential shapes x {live, unknown, externalised-only} ids x {no, empty, valid} bodies x 5 server states (no instances, live session, locked session, externalised state on disk, after authorised traffic on every route): non-public rules answer >= 400 and the deep snapshot (instances, session states, timestamps, scenario settings, state directory bytes) is unchanged.",
+         "Every (rule, method) of app.url_map (enumerated at run time) x 16 judged credential shapes (incl. the other server's valid token) x {live, unknown, externalised-only} ids x {no, empty, valid} bodies x 6 server states (no instances, live session, locked session, externalised state on disk, after authorised traffic on every route, another server object with another token in use in the same process): non-public rules answer >= 400 and the deep snapshot (instances, session states, timestamps, scenario settings, state directory bytes) is unchanged.",
          "Flask test client; `Basic <token>` and `Bearer <token> x` recorded but not judged; Flask's automatic OPTIONS reply checked for no state change only.", "§4 C15"),
  "C16": ("model_checking", "exhaustive enumeration of all merges of per-instance request scripts at request granularity; differential oracle against the solo replay",
-         "All C(2n, n) merges of two request scripts of n = 5 (thorough 7) requests for 5 (10) script pairs, all merges of 3 (6) pairs of short life-cycle scripts of 5 requests (stop while another starts, equal-length sessions asked for results, partial timeout dictionary that times out), thorough also all merges of three scripts of 3: every (status, body) an instance returns equals what it returns when its script runs alone on a fresh server; one script advances a virtual clock so that a bystander instance times out.",
+         "All C(2n, n) merges of two request scripts of n = 5 (thorough 7) requests for 5 (10) script pairs, all merges of 3 (6) pairs of short life-cycle scripts of 5 requests (stop while another starts, equal-length sessions asked for results, partial timeout dictionary that times out) with a fresh model per instance and with one shared model object registered in every instance, thorough also all merges of three scripts of 3: every (status, body) an instance returns equals what it returns when its script runs alone on a fresh server; one script advances a virtual clock so that a bystander instance times out.",
          "Instances come from a factory that builds a fresh model per call; interleaving at request granularity only; Flask test client.", "§4 C16"),
  "C17": ("model_checking", "explicit-state BFS over timed event sequences on a real BptkServer under a virtual clock, reference dict id -> (last access, timeout)",
-         "All sequences to depth 5 (thorough 6) of create(timeout unit) / begin-session / session-results / keep-alive / metrics / full-metrics / save-state / advance(eps, T/2, T-eps, T, T+eps) for pairs of instances covering every timeout unit, with and without a file adapter, from the empty server and again from the state in which both instances exist: available while younger than the timeout, gone (not counted, destroy() exactly once, id refused or restored from the adapter) after the next sweep trigger, timer restarted by every access.",
+         "All sequences to depth 5 (thorough 6) of create(timeout unit) / begin-session / session-results / keep-alive / metrics / full-metrics / save-state / requests with a wrong token (token server) / advance(eps, T/2, T-eps, T, T+eps) for pairs of instances covering every timeout unit, with and without a file adapter, from the empty server and again from the state in which both instances exist: available while younger than the timeout, gone (not counted, destroy() exactly once, id refused or restored from the adapter) after the next sweep trigger, timer restarted by every access.",
          "Time reaches the server only through datetime.datetime.now() of its modules (shimmed); an expired instance accessed itself before any sweep is not judged; thorough adds a short real-time cross-check.", "§4 C17"),
  "C14": ("model_checking", "explicit-state BFS over operation histories on the real Model from the empty model and from an aged root (300 agents created, 298 deleted; ids passed by value), dict reference compared on every transition; canonical keys include a generic fingerprint of the model's containers",
-         "All create/create_n/delete/delete_n/configure/reset/set_state histories up to depth 6 (quick) / 8 (thorough) over two agent types, and up to depth 4 / 6 from the aged root; every registry query compared with a dict id->(type,state) after every transition.",
+         "All create/create_n/delete/delete_n/delete of the list agent_ids() returns/configure/reset/set_state/register-a-third-type histories up to depth 6 (quick) / 8 (thorough) over two agent types, up to depth 4 / 6 from the aged root and on a model without data collector (reset() fails half way, the reference adopts what is left); every registry query compared with a dict id->(type,state) after every transition.",
          "Agents created through factories whose name equals agent_type; ids offered to delete range over all ids ever issued (live and dead).", "§4 C14"),
  "C18": ("model_checking", "stateless preemption-bounded exploration (iterative context bounding) of concurrent stepping requests under a controlled scheduler: sys.settrace line points, per-thread baton, scheduler-owned mutex",
-         "Every schedule with <= 1 (thorough 2) preemptions of two concurrent stepping requests - all 6 unordered pairs of run-step / run-steps / stream-steps, the two smallest pairs at <= 2 in both tiers, 4 (9) pairs with a request that has no JSON body at <= 1 - (one triple in quick, thorough: all triples, <= 1 preemption) at the source lines of the handlers, the streamer, lock/unlock/is_locked/try_lock and the session-touching lines of bptk.run_step: consecutive steps per response, no time twice, clock = steps returned, results log = returned times, lock released; plus 8 sequential release cases (completion, error, client gone, close after the next request took the lock).",
-         "Source-line granularity; Flask test clients in controlled threads; the library mutex bptk._lock_guard is replaced by a scheduler-owned lock; simulation worker threads run inside their parent's turn.", "§4 C18"),
+         "Every schedule with <= 1 (thorough 2) preemptions of two concurrent stepping requests - all 6 unordered pairs of run-step / run-steps / stream-steps, the two smallest pairs at <= 2 in both tiers, 4 (9) pairs with a request that has no JSON body at <= 1 - (one triple in quick, thorough: all triples, <= 1 preemption) at the source lines of the handlers, the streamer, lock/unlock/is_locked/try_lock and the session-touching lines of bptk.run_step: consecutive steps per response, no time twice, clock = steps returned, results log = returned times, lock released; plus 8 sequential release cases (completion, error, client gone, close after the next request took the lock) and 23 hold cases (a stream in progress x 12 bystander requests x with/without adapter: the lock is kept); thorough: run-step + run-step with <= 3 preemptions.",
+         "Source-line granularity; Flask test clients in controlled threads; every mutex the library creates (threading.Lock inside BPTK_Py.bptk) is a scheduler-owned lock; simulation worker threads run inside their parent's turn.", "§4 C18"),
  "C19": ("model_checking", "exhaustive enumeration of session histories x adapter mode x save/restore route; JSON equality before/after",
-         "Run spec x n <= 3 (thorough 4) steps x every sequence over {no body, {}, constants, constants+points} (and histories with run-steps requests of 2-3 steps; sessions through negative times and of 12 steps) x compress off/on x {auto save + lazy restore after a virtual-clock time-out, save-state/load-state, new server on the directory} x 1-2 scenarios: session-results, flat results, clock, settings log and results log after the restore equal those before; run-step has the same status with and without an adapter.",
+         "Run spec x n <= 3 (thorough 4) steps x every sequence over {no body, {}, constants, constants+points} (and histories with run-steps requests of 2-3 steps; sessions through negative times and of 12 steps) x compress off/on x {load-state after the live instance changed, unreadable files in the directory under both listing orders, auto save + lazy restore after a virtual-clock time-out, save-state/load-state, new server on the directory} x 1-2 scenarios: session-results, flat results, clock, settings log and results log after the restore equal those before; run-step has the same status with and without an adapter.",
          "FileAdapter only; logs compared after JSON key normalisation.", "§4 C19"),
  "C20": ("fault_enumeration", "exhaustive enumeration of crash points and torn-write classes over session histories; differential oracle against the uninterrupted run",
-         "For every history (run spec x N <= 3 (4) stepping requests x settings sequences x begin settings x compress): every crash point k in 0..N - server object dropped, new BptkServer on the same directory, remaining requests equal the uninterrupted run; histories with run-steps requests; 12-step sessions with a setting in every step on decimal grids (dt .1, .05, ...) at every crash point; torn writes: the file written by request k cut at 6 truncation classes, with and without a second intact instance - the constructor never raises, the intact instance continues, the damaged one may be lost.",
+         "For every history (run spec x N <= 3 (4) stepping requests x settings sequences x begin settings x compress): every crash point k in 0..N - server object dropped, new BptkServer on the same directory, remaining requests equal the uninterrupted run; histories with run-steps requests; 12-step sessions with a setting in every step on decimal grids (dt .1, .05, ...) at every crash point; twins (two identical sessions stepped in turns); a bystander instance without a session; torn writes: the file written by request k cut at 6 truncation classes (directory listed in both orders), with and without a second intact instance - the constructor never raises, the intact instance continues, the damaged one may be lost.",
          "Crash between requests or truncation of the last written file; FileAdapter only.", "§4 C20"),
 }
 
